@@ -53,7 +53,7 @@ Proof.
       pose proof (hind_range (HO a) (HR a)). pose proof (OI_census _ _ a OO). pose proof (hmops_nn (HO a) (MActs (act :: l) :: k0)). lia. }
   intros a [(m' & IN & MK)|(c & IN & CK)].
   - apply in_app_or in IN as [IN|IN].
-    + destruct (handle_marks a _ _ _ _ KK QT F E m' IN MK) as [MB|(c & -> & IC)].
+    + destruct (handle_marks a _ _ _ _ KK QT F E m' IN MK) as [MB|(_ & c & -> & IC)].
       * apply KEEP. left. exists m. split; [left; reflexivity | exact MB].
       * apply KEEP. right. exists c. split; [exact IC | exact MK].
     + apply KEEP. left. exists m'. split; [right; exact IN | exact MK].
